@@ -41,7 +41,9 @@ func addTag4(r *dhcpv4.DHCPv4, idx int) {
 func script4(tok string, idx int, log *invLog) handler.Handler4 {
 	return func(req, resp *dhcpv4.DHCPv4) (out *dhcpv4.DHCPv4, stop bool) {
 		in := tags4(resp)
-		defer func() { log.entries = append(log.entries, fmt.Sprintf("%d:%s:%s:%v", idx, in, tags4(out), b2i(stop))) }()
+		// fingerprint of the request this handler was given: it must be the request as received
+		fp := fmt.Sprintf("%s%02x%02x", hx(req.TransactionID[:]), byte(req.OpCode), byte(len(req.ClientHWAddr)))
+		defer func() { log.entries = append(log.entries, fmt.Sprintf("%d:%s:%s:%v:%s", idx, in, tags4(out), b2i(stop), fp)) }()
 		switch tok[0] {
 		case 'x':
 			return nil, true
@@ -135,7 +137,7 @@ func dg4Result(f []string) string {
 	}
 	parsed := "U"
 	if d, err := dhcpv4.FromBytes(dg); err == nil {
-		parsed = "P " + view4(d)
+		parsed = "P " + view4(d) + fmt.Sprintf(" %s%02x%02x", hx(d.TransactionID[:]), byte(d.OpCode), byte(len(d.ClientHWAddr)))
 	}
 	res := watchdog(5*time.Second, func() string {
 		return guard(func() string {
@@ -189,7 +191,17 @@ func addTag6(m *dhcpv6.Message, idx int) {
 func script6(tok string, idx int, log *invLog) handler.Handler6 {
 	return func(req, resp dhcpv6.DHCPv6) (out dhcpv6.DHCPv6, stop bool) {
 		in := tags6(resp)
-		defer func() { log.entries = append(log.entries, fmt.Sprintf("%d:%s:%s:%v", idx, in, tags6(out), b2i(stop))) }()
+		// fingerprint of the request this handler was given: number of relay layers it sees, and its wire length
+		depth := 0
+		for d := req; d != nil && d.IsRelay(); depth++ {
+			inner := d.(*dhcpv6.RelayMessage).Options.RelayMessage()
+			if inner == nil {
+				break
+			}
+			d = inner
+		}
+		fp := fmt.Sprintf("%02x%04x", depth, len(req.ToBytes())&0xffff)
+		defer func() { log.entries = append(log.entries, fmt.Sprintf("%d:%s:%s:%v:%s", idx, in, tags6(out), b2i(stop), fp)) }()
 		switch tok[0] {
 		case 'x':
 			return nil, true
@@ -290,7 +302,15 @@ func execDg6(c *ctx, f []string) {
 	}
 	parsed := "U"
 	if d, err := dhcpv6.FromBytes(dg); err == nil {
-		parsed = "P " + view6(d)
+		depth := 0
+		for x := d; x != nil && x.IsRelay(); depth++ {
+			inner := x.(*dhcpv6.RelayMessage).Options.RelayMessage()
+			if inner == nil {
+				break
+			}
+			x = inner
+		}
+		parsed = fmt.Sprintf("P %02x%04x ", depth, len(d.ToBytes())&0xffff) + view6(d)
 	}
 	res := watchdog(5*time.Second, func() string {
 		return guard(func() string {
